@@ -18,6 +18,8 @@ import (
 	"verif/pgen"
 	"verif/sdsl"
 	"verif/world"
+
+	"pgregory.net/rapid"
 )
 
 var (
@@ -60,6 +62,22 @@ type runSpec struct {
 	// FinalOnly: a final_blocks_only request (with TailLag the blocks above Final reach the pipeline as plain
 	// "irreversible" signals, as from the live hub)
 	FinalOnly bool `json:"final_only,omitempty"`
+	// Faults: the object store fails the first write of some cache files transiently during this request
+	Faults *writeFaultSpec `json:"write_faults,omitempty"`
+}
+
+type writeFaultSpec struct {
+	Pick   uint64 `json:"pick"`
+	Every  int    `json:"every"`
+	Before bool   `json:"before_reading_the_body,omitempty"`
+}
+
+// writeFaultsInjected counts the injected faults of the process (evidence).
+var writeFaultsInjected atomic.Int64
+
+func genWriteFaults(t *rapid.T) *writeFaultSpec {
+	return &writeFaultSpec{Pick: rapid.Uint64Range(0, 1<<20).Draw(t, "faultpick"), Every: rapid.SampledFrom([]int{1, 2, 3, 5}).Draw(t, "faultevery"),
+		Before: rapid.IntRange(0, 3).Draw(t, "faultbefore") == 0}
 }
 
 // snapshot of every store after a block.
@@ -103,6 +121,11 @@ func execute(p pgen.Prog, spec runSpec, seg uint64, head uint64, dir string, for
 	if forbidJobs {
 		cfg.Tier2Hook = func(stage.Unit, int) error { return errNoPureLinear }
 	}
+	if spec.Faults != nil {
+		// at most two per request: every retried write sleeps one second
+		cfg.WriteFaults = &world.WriteFaults{Pick: spec.Faults.Pick, Every: spec.Faults.Every, Before: spec.Faults.Before, Max: 2}
+		defer func() { writeFaultsInjected.Add(int64(cfg.WriteFaults.Stats())) }()
+	}
 	out.res = world.Run(p.Modules(), world.Request{Prod: spec.Prod, Start: int64(spec.Start), Stop: spec.Stop, Output: spec.Output, FinalBlocksOnly: spec.FinalOnly}, cfg)
 	return out
 }
@@ -115,7 +138,7 @@ func reference(p pgen.Prog, spec runSpec, head uint64) (runOut, error) {
 	dir := newDir()
 	defer os.RemoveAll(dir)
 	ref := spec
-	ref.Prod, ref.Workers, ref.Final, ref.JobOrder = false, 1, 0, nil
+	ref.Prod, ref.Workers, ref.Final, ref.JobOrder, ref.Faults = false, 1, 0, nil, nil
 	out := execute(p, ref, 1_000_000, head, dir, true)
 	if out.res.Err != nil {
 		return out, out.res.Err
